@@ -54,11 +54,16 @@ def str := Formats.str
 
 def applyOp (cat : List (Nat × Version)) (e : Env) (op : String) : Env :=
   match op.splitOn ":" with
-  | ["w", f, v] => { e with files := insertFile (str f, some v.toNat!) e.files }
+  | ["w", f, v] =>
+    -- a path inside a sub-directory is not a directory entry; writing over a directory fails
+    if (str f).contains 47 ∨ e.files.any (fun p => p.1 = str f ∧ p.2.isNone) then e
+    else { e with files := insertFile (str f, some v.toNat!) e.files }
   | ["rm", f] => { e with files := e.files.filter (·.1 ≠ str f) }
   | ["mv", f, g] =>
     match e.files.find? (·.1 = str f) with
-    | some p => { e with files := insertFile (str g, p.2) (e.files.filter (·.1 ≠ str f)) }
+    | some p =>
+      if p.2.isNone ∨ e.files.any (fun q => q.1 = str g ∧ q.2.isNone) then e   -- only plain files are renamed
+      else { e with files := insertFile (str g, p.2) (e.files.filter (·.1 ≠ str f)) }
     | none => e
   | ["mkdir", f] => if e.files.any (·.1 = str f) then e else { e with files := insertFile (str f, none) e.files }
   | ["load"] => { e with rt := loadAll cfg e.rt (listing cat e.files) }
